@@ -112,10 +112,9 @@ Proof.
   intros I Hb Hp Hc Hx Hfit. pose proof I as (Hcap & _). apply s_substr_inv in Hx as (Hle & ->). change slen with zlen in *.
   destruct (arr_substr_ok src pos count Hb ltac:(lia) Hc) as (sub & E & Hl & Hch & Hz).
   unfold assign_view_sub_m. rewrite E. cbn [rbind]. rewrite <- Hch in *.
-  destruct (ctor_ptr_ref (cap s) (ckind s) (view_chars_m sub) (vlen sub) Hcap) as (s' & E' & I' & C' & K' & Cn).
-  { pose proof (zlen_nonneg (view_chars_m sub)). lia. }
+  destruct (ctor_range_ref true (cap s) (ckind s) (view_chars_m sub) Hcap) as (s' & E' & I' & C' & K' & Cn).
   { lia. }
-  apply (to_refines s s'); try assumption. rewrite Cn, <- Hz. apply take_all.
+  apply (to_refines s s'); assumption.
 Qed.
 
 (** * insert, erase(position) *)
